@@ -63,6 +63,21 @@ func body1211(name []byte, ftype byte, size int) []byte {
 	return binary.BigEndian.AppendUint32(b, uint32(size))
 }
 
+// longName: a name at the limits of its field - the 50-byte fixed field of the chunk header, or the one-byte
+// length of the HLJ dialect (lengths around 242/243, where header arithmetic in a byte would wrap)
+func longName(r *rand.Rand, d string, k int) []byte {
+	n := 50
+	if d == "HLJ" {
+		n = []int{50, 200, 241, 242, 243, 244, 250, 255}[r.Intn(8)]
+	}
+	b := make([]byte, n)
+	for i := range b {
+		b[i] = byte('a' + (i+k)%26)
+	}
+	b[0] = byte('0' + k)
+	return b
+}
+
 func randName(r *rand.Rand, k int) []byte {
 	base := [][]byte{[]byte("00_64_6401_0_a.jpg"), []byte("01cd.bin"), []byte("x01cdy"), []byte("v.mp4"), {0x7e, 'n', 0x7d}}
 	n := append([]byte{}, base[r.Intn(len(base))]...)
@@ -108,6 +123,9 @@ func randSession(r *rand.Rand, d string, hostile int) (units [][]byte, class str
 			copy(c[r.Intn(sz-4):], []byte{0x30, 0x31, 0x63, 0x64})
 		}
 		files[i] = aFile{randName(r, i), c}
+		if r.Intn(5) == 0 {
+			files[i].name = longName(r, d, i)
+		}
 	}
 	class = "plain"
 	units = append(units, ctl(0x1210, body1210(d, r, files)))
